@@ -504,7 +504,9 @@ class FileResponse(Response, FileResponseMixin):
             )
             return await send_http_body(
                 send,
-                b"" if exception.content is None else exception.content.encode("utf8"),
+                b""
+                if send_header_only or exception.content is None
+                else exception.content.encode("utf8"),
             )
 
         if len(ranges) == 1:
